@@ -42,3 +42,16 @@ def without(d, key):
     if key in r:
         del r[key]
     return r
+
+
+# ---- sequence combinators (native definitions; the verifier evaluates them over opaque sequences)
+def seq_map(f, xs):
+    return [f(x) for x in xs]
+
+
+def seq_filter(f, xs):
+    return [x for x in xs if f(x)]
+
+
+def seq_flatmap(f, xs):
+    return [y for x in xs for y in f(x)]
